@@ -78,7 +78,10 @@ pub fn gen_world(seed: u64, idx: u64, s: &dyn SuiteOps, chunk: usize, nchunks: u
     b.push(Op::LoginRespond { st: again_st, msg: again, tape, setup: Ref::mem(setup), record: Some(Ref::mem(r1.record)), req: Ref::mem(l.req), cred: cred.clone().into(), ctx: ctx.clone().map(Into::into), ids: ids.clone() });
     donors.push((again, "same_request_second_response"));
     // the same request answered for another user / no record / another server
-    for (rec, su, name) in [(Some(r2.record), setup, "other_user"), (None, setup, "fake_record"), (Some(r3.record), setup2, "other_server")] {
+    // a server holding the same OPRF seed and the stolen password file under another static key
+    let thief = b.id();
+    b.push(Op::SpliceSetup { out: thief, seed_from: setup, key_from: setup2 });
+    for (rec, su, name) in [(Some(r2.record), setup, "other_user"), (None, setup, "fake_record"), (Some(r3.record), setup2, "other_server"), (Some(r1.record), thief, "same_seed_other_static_key")] {
         let st = b.id();
         let msg = b.id();
         let tape = b.tape("loginrespond");
@@ -207,7 +210,7 @@ pub fn gen_world(seed: u64, idx: u64, s: &dyn SuiteOps, chunk: usize, nchunks: u
 
 pub fn run(ctx: &Ctx) -> Report {
     let mut rep = Report::new(
-        "per sampled honest login (3 registrations, 2 server setups, donors: other session of the same user, a second response to the same request, other user, fake record, other server): chunk 0 = whole foreign responses, every single-field and field-pair splice from every donor, 4 re-randomisations, zeroing, rotation, 24 XOR-cancelling byte pairs and 12 adjacent transpositions per byte field, reflection (beta := own blinded element), 7 wrong lengths; chunks 1..k = substitution at EVERY offset of the response (quick: all 8 single-bit flips + 1 seeded multi-bit value per offset; thorough: all 255 values per offset, i.e. exhaustive in offset x value); the genuine response is delivered last through native bytes and must be accepted. non-trivial = world contains a predicted rejection; mutated bytes that canonicalise to the genuine response are skipped (alias_skipped) — aliases are C10's business",
+        "per sampled honest login (3 registrations, 2 server setups, donors: other session of the same user, a second response to the same request, other user, fake record, other server, a server with the same OPRF seed and the same password file under another static key): chunk 0 = whole foreign responses, every single-field and field-pair splice from every donor, 4 re-randomisations, zeroing, rotation, 24 XOR-cancelling byte pairs and 12 adjacent transpositions per byte field, reflection (beta := own blinded element), 7 wrong lengths; chunks 1..k = substitution at EVERY offset of the response (quick: all 8 single-bit flips + 1 seeded multi-bit value per offset; thorough: all 255 values per offset, i.e. exhaustive in offset x value); the genuine response is delivered last through native bytes and must be accepted. non-trivial = world contains a predicted rejection; mutated bytes that canonicalise to the genuine response are skipped (alias_skipped) — aliases are C10's business",
     );
     rep.exhaustive = Some(true);
     let mut suites: Vec<&'static dyn SuiteOps> = SIM_SUITES.to_vec();
